@@ -298,14 +298,19 @@ def judgeBuild (exact : Bool) (r out : List String) : Verdict :=
                    else if x.regionEnd % 70 == 0 then "re=70k" else "re=other"
       let outM := maskBuildReply out
       let mM := maskBuildReply m
-      let same := if exact then outM == mM else canonReply outM == canonReply mM
+      let same0 := if exact then outM == mM else canonReply outM == canonReply mM
+      -- a record of the known-finding class on which the property HOLDS of the reply (the finding has been repaired, e.g.
+      -- by escaping the '#'): the model mirrors the loss, so a difference from it is drift there, not a DIFF
+      let repaired := hashSeqid x && j && !same0
+      let same := same0 || repaired
       { corr := same, judge := if inDom then some j else outsideVerdict same out,
         cls := (if triv then "triv:" else "") ++ (if exact then "buildx/" else "build/") ++ lenClass x.seq.length ++ "/" ++ reCls
                ++ (if x.features.any (fun f => f.attrs.isEmpty) then "/noattr" else "")
                -- the known finding is tagged only when the property holds of the record WITHOUT its '#'-seqid features:
                -- a second defect on such a record is a plain FAIL
                ++ (if hashSeqid x && !j && jHash then "/kf:C14-hash-seqid" else if hashSeqid x then "/hash-seqid" else "")
-               ++ (if same && canonReply out != canonReply m then "/getseq-outside-drift" else if same && out != m then "/other-wrap" else ""),
+               ++ (if repaired then "/kf-repaired"
+                   else if same && canonReply out != canonReply m then "/getseq-outside-drift" else if same && out != m then "/other-wrap" else ""),
         detail := if same && (j || !inDom) then "" else lineOf (m.drop 2) }
 
 def judge (c out : List String) : Verdict :=
